@@ -529,6 +529,13 @@ pub fn run_c09(o: &crate::Opts) {
     let mut sink = crate::Sink::new(o);
     if let Some(path) = &o.replay {
         for line in std::fs::read_to_string(path).unwrap().lines() {
+            if line.starts_with("T09 ") {
+                match TextCase::parse(line) {
+                    Some(t) => sink.put(line, &run_text(&mut cap, &t)),
+                    None => sink.put(line, "bad-request"),
+                }
+                continue;
+            }
             match DbgCase::parse(line, "D09") {
                 Some(c) => {
                     let obs = run_debug(&mut cap, &c);
@@ -548,7 +555,14 @@ pub fn run_c09(o: &crate::Opts) {
     let mut kinds: std::collections::BTreeMap<String, u64> = Default::default();
     let mut samples = Vec::new();
     let mut differs = 0u64;
-    for _ in 0..per {
+    for k in 0..per {
+        if k % 4 == 3 {
+            let t = gen_text_case(&mut rng);
+            let obs = run_text(&mut cap, &t);
+            *kinds.entry(format!("text-session:{}", obs.split(' ').next().unwrap_or(""))).or_default() += 1;
+            sink.put(&t.request(), &obs);
+            continue;
+        }
         let p = gen_structured(&mut rng);
         if p.kind == "rti" {
             continue;
@@ -824,4 +838,279 @@ pub fn run_prop(o: &crate::Opts, tag: &'static str) {
     let j = |m: &std::collections::BTreeMap<String, u64>| m.iter().map(|(k, v)| format!("\"{}\":{}", k, v)).collect::<Vec<_>>().join(",");
     let n_cases = sink.n;
     sink.finish(o, &format!("{{\"cases\":{},\"verdicts\":{{{}}},\"kind_and_outcome\":{{{}}},\"samples\":[{}]}}", n_cases, j(&verdicts), j(&kinds), samples.join(",")));
+}
+
+// ------------------------------------------------------------------ text-level sessions (T09)
+//
+// The script is given to the real debugger as TEXT (through `--command`, through standard input,
+// or split across both; `;` or newline separated; aliases, letter case, number spellings,
+// invalid lines mixed in) and the driver derives the commands from the same text with the
+// command-language model (`Cmd.session`), then runs the debugger model. This ties the two
+// models together end to end and checks C14's transport independence at the level of effects.
+
+fn spell_num(rng: &mut Rng, v: u32) -> String {
+    match rng.below(5) {
+        0 => format!("x{:x}", v),
+        1 => format!("0x{:X}", v),
+        2 => format!("#{}", v),
+        3 => format!("{}", v),
+        _ => format!("0b{:b}", v),
+    }
+}
+
+fn spell_loc(rng: &mut Rng, l: &Loc) -> String {
+    match l {
+        Loc::Addr(a) => spell_num(rng, *a as u32),
+        Loc::Pc(o) => {
+            if *o == 0 && rng.chance(1, 2) {
+                "^".to_string()
+            } else if *o < 0 {
+                format!("^-{}", spell_num(rng, (-*o) as u32))
+            } else {
+                format!("^{}", spell_num(rng, *o as u32))
+            }
+        }
+        Loc::Label(n, o) => {
+            if *o == 0 {
+                n.clone()
+            } else if *o > 0 {
+                format!("{}+{}", n, spell_num(rng, *o as u32))
+            } else {
+                format!("{}-{}", n, spell_num(rng, (-*o) as u32))
+            }
+        }
+    }
+}
+
+fn recase(rng: &mut Rng, s: &str) -> String {
+    match rng.below(4) {
+        0 => s.to_uppercase(),
+        1 => s.chars().enumerate().map(|(i, c)| if i % 2 == 0 { c.to_ascii_uppercase() } else { c }).collect(),
+        _ => s.to_string(),
+    }
+}
+
+/// One command as a user might type it.
+fn spell_cmd(rng: &mut Rng, c: &Cmd) -> String {
+    let pick = |rng: &mut Rng, xs: &[&str]| -> String { let i = rng.below(xs.len() as u64) as usize; recase(rng, xs[i]) };
+    let sp = |rng: &mut Rng| -> String { " ".repeat(1 + rng.below(3) as usize) };
+    let body = match c {
+        Cmd::Help | Cmd::HelpRaw => pick(rng, &["help", "h", "man", "info"]),
+        Cmd::StepOver => pick(rng, &["step", "s"]),
+        Cmd::StepInto(k) => {
+            let name = pick(rng, &["step into", "s i", "si", "stepinto", "step i", "s into"]);
+            if *k == 1 && rng.chance(1, 2) { name } else { format!("{}{}{}", name, sp(rng), spell_num(rng, *k as u32)) }
+        }
+        Cmd::StepOut => pick(rng, &["step out", "s o", "so", "stepout"]),
+        Cmd::Continue => pick(rng, &["continue", "c", "cont"]),
+        Cmd::Registers => pick(rng, &["registers", "r", "reg"]),
+        Cmd::PrintReg(r) => format!("{}{}{}{}", pick(rng, &["print", "p"]), sp(rng), if rng.chance(1, 2) { "r" } else { "R" }, r),
+        Cmd::PrintMem(l) => format!("{}{}{}", pick(rng, &["print", "p"]), sp(rng), spell_loc(rng, l)),
+        Cmd::MoveReg(r, v) => format!("{}{}r{}{}{}", pick(rng, &["move", "m"]), sp(rng), r, sp(rng), spell_num(rng, *v as u32)),
+        Cmd::MoveMem(l, v) => format!("{}{}{}{}{}", pick(rng, &["move", "m"]), sp(rng), spell_loc(rng, l), sp(rng), spell_num(rng, *v as u32)),
+        Cmd::Goto(l) => format!("{}{}{}", pick(rng, &["goto", "g"]), sp(rng), spell_loc(rng, l)),
+        Cmd::Assembly(l) => {
+            if *l == Loc::Pc(0) && rng.chance(1, 2) {
+                pick(rng, &["assembly", "a", "asm"])
+            } else {
+                format!("{}{}{}", pick(rng, &["assembly", "a", "asm"]), sp(rng), spell_loc(rng, l))
+            }
+        }
+        Cmd::Eval(s) => format!("{} {}", pick(rng, &["eval", "e"]), s),
+        Cmd::Echo(s) => format!("echo {}", s),
+        Cmd::Reset => pick(rng, &["reset", "z"]),
+        Cmd::Quit => pick(rng, &["quit", "q"]),
+        Cmd::Exit => pick(rng, &["exit", "x", ":q"]),
+        Cmd::BreakList => pick(rng, &["break list", "b l", "bl", "breaklist", "break l"]),
+        Cmd::BreakAdd(l) => format!("{}{}{}", pick(rng, &["break add", "b a", "ba", "breakadd"]), sp(rng), spell_loc(rng, l)),
+        Cmd::BreakRemove(l) => format!("{}{}{}", pick(rng, &["break remove", "b r", "br", "breakremove"]), sp(rng), spell_loc(rng, l)),
+    };
+    let lead = " ".repeat(rng.below(3) as usize);
+    let trail = " ".repeat(rng.below(3) as usize);
+    format!("{}{}{}", lead, body, trail)
+}
+
+const BAD_LINES: [&str; 14] = [
+    "frobnicate", "step into zz", "move r1", "print r9+", "goto", "break", "break add", "b x", "p 1 2",
+    "move 70000 1", "step into 99999999999", "next", "set r0 1", "é",
+];
+
+pub struct TextCase {
+    pub base: DbgCase,
+    pub arg: Option<String>,
+    pub stdin: String,
+}
+
+impl TextCase {
+    pub fn request(&self) -> String {
+        let b = &self.base;
+        let mut s = format!("T09 {} {:x} {:04x} {:x}", b.stack as u8, b.fuel, b.orig, b.words.len());
+        for w in &b.words {
+            s.push_str(&format!(" {:04x}", w));
+        }
+        let mut br = b.breaks.clone();
+        br.sort();
+        s.push_str(&format!(" {:x}", br.len()));
+        for k in br {
+            s.push_str(&format!(" {:x}", k));
+        }
+        s.push_str(&format!(" {:x}", b.labels.len()));
+        for (n, k) in &b.labels {
+            s.push_str(&format!(" {} {:x}", hex(n.as_bytes()), k));
+        }
+        s.push_str(&format!(
+            " {} {}",
+            match &self.arg { Some(a) => format!("A{}", hex(a.as_bytes())), None => "N".to_string() },
+            hex(self.stdin.as_bytes())
+        ));
+        s
+    }
+    pub fn parse(line: &str) -> Option<TextCase> {
+        let f: Vec<&str> = line.split_whitespace().collect();
+        let h = |i: usize| -> Option<usize> { usize::from_str_radix(f.get(i)?, 16).ok() };
+        let mut i = 1;
+        let stack = *f.get(i)? != "0";
+        i += 1;
+        let fuel = h(i)? as u64;
+        i += 1;
+        let orig = h(i)? as u16;
+        i += 1;
+        let n = h(i)?;
+        i += 1;
+        let mut words = Vec::new();
+        for _ in 0..n {
+            words.push(h(i)? as u16);
+            i += 1;
+        }
+        let nb = h(i)?;
+        i += 1;
+        let mut breaks = Vec::new();
+        for _ in 0..nb {
+            breaks.push(h(i)?);
+            i += 1;
+        }
+        let nl = h(i)?;
+        i += 1;
+        let mut labels = Vec::new();
+        for _ in 0..nl {
+            labels.push((String::from_utf8(unhex(f.get(i)?)?).ok()?, h(i + 1)?));
+            i += 2;
+        }
+        let a = f.get(i)?;
+        let arg = if *a == "N" { None } else { Some(String::from_utf8(unhex(&a[1..])?).ok()?) };
+        let stdin = String::from_utf8(unhex(f.get(i + 1)?)?).ok()?;
+        Some(TextCase {
+            base: DbgCase { tag: "T09", stack, fuel, inp: vec![], orig, words, breaks, labels, cmds: vec![] },
+            arg,
+            stdin,
+        })
+    }
+}
+
+/// Like `run_debug`, with the script as text; `CommandError` lines are counted, not compared
+/// line by line (they are printed inside `read_from`, which the debugger model does not see).
+pub fn run_text(cap: &mut Capture, t: &TextCase) -> String {
+    let c = &t.base;
+    set_features(c.stack);
+    lace::set_minimal(true);
+    lace::reset_state();
+    let src: &'static str = Box::leak(c.source().into_boxed_str());
+    let arg = t.arg.clone();
+    let mut slot: Option<RunEnvironment> = None;
+    let load = guarded(|| {
+        let parser = lace::AsmParser::new(src).expect("lex");
+        let mut air = parser.parse().expect("parse");
+        air.backpatch().expect("backpatch");
+        let opts = lace::debugger::Options { command: arg.clone() };
+        slot = Some(RunEnvironment::try_from(air, Some(opts)).expect("try_from"));
+    });
+    if !matches!(load, Outcome::Ok) {
+        return "load-failed".into();
+    }
+    let mut env = slot.unwrap();
+    let shadow: Vec<u16> = env.verif_mem().to_vec();
+    cap.set_stdin(t.stdin.as_bytes());
+    lace::verif::set_fuel(Some(c.fuel));
+    lace::verif::set_logging(true);
+    cap.begin();
+    let outcome = guarded(|| env.run());
+    let (out, err) = cap.end();
+    let events = lace::verif::take_events();
+    lace::verif::set_logging(false);
+    lace::verif::set_fuel(None);
+    let _ = cap.drain_stdin();
+    let pcs: Vec<u16> = events.iter().filter_map(|e| if let Event::Exec(pc) = e { Some(*pc) } else { None }).collect();
+    let ncmds = events.iter().filter(|e| matches!(e, Event::Cmd)).count();
+    let head = match outcome {
+        Outcome::Ok => "done".to_string(),
+        Outcome::Exit(code) => format!("exit {}", code),
+        Outcome::Fuel => "fuel".to_string(),
+        Outcome::Panic(_) => return "panic".into(),
+    };
+    let (d, _) = mem_diff(&env.verif_mem()[..], &shadow);
+    let bps = match env.verif_breakpoints() {
+        Some(list) => {
+            if list.is_empty() { "none".to_string() } else { list.iter().map(|(a, p)| format!("{:04x}{}", a, if *p { "p" } else { "r" })).collect::<Vec<_>>().join(",") }
+        }
+        None => "-".to_string(),
+    };
+    let all = stderr_lines(&err);
+    let nerr = all.iter().filter(|l| l.as_str() == "CommandError").count();
+    let lines: Vec<&String> = all.iter().filter(|l| l.as_str() != "CommandError").collect();
+    let errs = if lines.is_empty() { "-".to_string() } else { lines.iter().map(|l| hex(l.as_bytes())).collect::<Vec<_>>().join(",") };
+    format!(
+        "{} {} |{} | {} | {} {:016x} | {} | {} | {} | errs={}",
+        head, show_regs(&env), d, hex(&out), pcs.len(), fnv(&pcs), ncmds, bps, errs, nerr
+    )
+}
+
+pub fn gen_text_case(rng: &mut Rng) -> TextCase {
+    // a program that reads no input (standard input belongs to the command reader here)
+    let p = loop {
+        let p = pick_program(rng);
+        if p.inp.is_empty() && !p.words.iter().any(|w| *w == 0xF020 || *w == 0xF023) {
+            break p;
+        }
+    };
+    let n = p.words.len();
+    let mut base = decorate(rng, &p, "T09", vec![], 30_000);
+    let mut lines: Vec<String> = Vec::new();
+    for _ in 0..rng.below(12) {
+        if rng.chance(1, 6) {
+            lines.push((*rng.pick(&BAD_LINES)).to_string());
+            continue;
+        }
+        if rng.chance(1, 12) {
+            lines.push(" ".repeat(rng.below(3) as usize));
+            continue;
+        }
+        let c = if rng.chance(1, 4) { rand_mutating(rng, p.orig, n, &base.labels) } else { rand_nonmutating(rng, p.orig, n, &base.labels) };
+        lines.push(spell_cmd(rng, &c));
+    }
+    if rng.chance(1, 2) {
+        let q = if rng.chance(3, 4) { Cmd::Quit } else { Cmd::Exit };
+        lines.push(spell_cmd(rng, &q));
+    }
+    base.inp = vec![];
+    // split the script between --command and standard input; `;` or newline between commands
+    let cut = rng.below(lines.len() as u64 + 1) as usize;
+    let join = |rng: &mut Rng, ls: &[String]| -> String {
+        let mut s = String::new();
+        for (i, l) in ls.iter().enumerate() {
+            if i > 0 {
+                s.push(if rng.chance(1, 2) { ';' } else { '\n' });
+            }
+            s.push_str(l);
+        }
+        if !ls.is_empty() && rng.chance(1, 3) {
+            s.push(if rng.chance(1, 2) { ';' } else { '\n' });
+        }
+        s
+    };
+    let (arg, stdin) = match rng.below(4) {
+        0 => (None, join(rng, &lines)),
+        1 => (Some(join(rng, &lines)), String::new()),
+        _ => (Some(join(rng, &lines[..cut])), join(rng, &lines[cut..])),
+    };
+    TextCase { base, arg, stdin }
 }
